@@ -48,8 +48,8 @@ pub fn dispatch(cmd: &str, args: &Args) -> Option<i32> {
 // ------------------------------------------------------------------------------------------
 
 const CMR10: &[u8] = include_bytes!(concat!(
-    env!("CARGO_MANIFEST_DIR"),
-    "/../../repo/crates/tfm/corpus/computer-modern/cmr10.tfm"
+    env!("VH_REPO"),
+    "/crates/tfm/corpus/computer-modern/cmr10.tfm"
 ));
 
 /// A small font whose lig/kern program has a two- and a three-character ligature, a ligature of
@@ -1089,7 +1089,7 @@ fn clone_params(p: &kp::Params) -> kp::Params {
 // the repository's golden paragraphs: vertical lists written from real TeX's log
 // ------------------------------------------------------------------------------------------
 
-const GOLDEN_DIR: &str = concat!(env!("CARGO_MANIFEST_DIR"), "/../../repo/crates/boxworks-knuthplass/testdata");
+const GOLDEN_DIR: &str = concat!(env!("VH_REPO"), "/crates/boxworks-knuthplass/testdata");
 
 /// The cases of boxworks-knuthplass's own test table (input, widths, parameters, want file).  Each
 /// is run the way that test runs it (add_word + add_space per word, plain TeX's hyphenator) and the
